@@ -111,7 +111,8 @@ class RulesReadOnly(Leg):
     checkfn = "(fun b : bool => b)"
     case_type = "bool"
     exhaustive = True
-    rule = "all 64 rule combinations x 5 attributes: assignment must raise AttributeError and leave the getter unchanged"
+    rule = ("all 64 rule combinations x 5 attributes: assignment must raise AttributeError and leave the getter unchanged; the "
+            "whitelist passed at construction is edited afterwards (outer and inner level) and the read-back must not move")
     quick_n = 64
     thorough_n = 64
 
@@ -122,7 +123,14 @@ class RulesReadOnly(Leg):
     def observe(self, case):
         w = H.World()
         try:
-            L = H.UniverseLaws(**H.rules_kwargs(case["bits"]))
+            kw = H.rules_kwargs(case["bits"])
+            L = H.UniverseLaws(**kw)
+            wl = kw["edge_whitelist"]
+            if wl is not None:                 # the caller goes on editing what it passed in (both levels)
+                for inner in list(wl.values()):
+                    inner[H.Universe] = H.UnDirectedEdge
+                    inner.pop(H.Vertex, None)
+                wl[H.VSub] = {}
             out = []
             for name, val in (("mixed_links", True), ("cycles", False), ("multipath", False), ("multiverse", True),
                               ("edge_whitelist", {})):
